@@ -648,15 +648,16 @@ type hpEntry struct {
 }
 
 type genCtx struct {
-	rng  *rand.Rand
-	b    *boot
-	alg  tpm2.Algorithm
-	st   pcrbruteforcer.SettingsReproduceEventLog
-	P    int
-	evs  []*tpmeventlog.Event
-	ops  []string
-	hp   []hpEntry
-	want *uint64 // when set: the PCR0_DATA entry was re-digested with this register and the search must find it
+	rng     *rand.Rand
+	b       *boot
+	alg     tpm2.Algorithm
+	st      pcrbruteforcer.SettingsReproduceEventLog
+	P       int
+	evs     []*tpmeventlog.Event
+	ops     []string
+	hp      []hpEntry
+	want    *uint64 // when set: the PCR0_DATA entry was re-digested with this register and the search must find it
+	wantNot *uint64 // when set: ... with this register, which the settings exclude: the entry must stay a mismatch
 }
 
 func (g *genCtx) pcr0Digest(v uint64) []byte {
@@ -725,6 +726,20 @@ func reachable(st pcrbruteforcer.SettingsReproduceEventLog, reg, v uint64) bool 
 		return true
 	}
 	return false
+}
+
+// the PCR0_DATA entry is re-digested with register v (simulated: reg): what the settings demand of the result
+// (v == reg is the unchanged digest: a plain match, nothing to repair)
+func (g *genCtx) expect(reg, v uint64) {
+	g.want, g.wantNot = nil, nil
+	w := v
+	switch {
+	case v == reg:
+	case reachable(g.st, reg, v):
+		g.want = &w
+	default:
+		g.wantNot = &w
+	}
 }
 
 func (g *genCtx) randDigest() []byte {
@@ -926,10 +941,7 @@ func (g *genCtx) redigestPCR0() {
 		g.ops = append(g.ops, fmt.Sprintf("PCR0_DATA entry %d re-digested with bits %v of PCR0_DATA flipped (bits 0..63 are ACM_POLICY_STATUS, which reads %#x then)", at, fl, v))
 		return
 	}
-	if reachable(g.st, reg, v) { // (decrement 0 is the unchanged digest: a plain match, nothing to repair)
-		w := v
-		g.want = &w
-	}
+	g.expect(reg, v)
 	g.evs[at].Digest.Digest = g.pcr0Digest(v)
 	g.ops = append(g.ops, fmt.Sprintf("PCR0_DATA entry %d re-digested with ACM_POLICY_STATUS %#x (%s)", at, v, what))
 }
@@ -1482,6 +1494,15 @@ func doCase(c *gal.Ctx, kind string, g *genCtx, nilLog bool) {
 				break
 			}
 			issuesWanted++
+			for i := range pAll {
+				if pAll[i].ev == e.Calc && b.regs {
+					comb := "off"
+					if g.st.EnableACMPolicyCombinatorialStrategy {
+						comb = fmt.Sprintf("on, distance %d", g.st.MaxACMPolicyCombinatorialDistance)
+					}
+					c.Count(fmt.Sprintf("PCR0_DATA entry paired with a differing digest, combinatorial strategy %s: status %d", comb, e.Status))
+				}
+			}
 			switch e.Status {
 			case 1:
 				repaired++
@@ -1529,11 +1550,26 @@ func doCase(c *gal.Ctx, kind string, g *genCtx, nilLog bool) {
 	// 3. a PCR0_DATA digest produced with a register the settings promise to find (a decrement inside the window, bit
 	// flips within the distance of the enabled combinatorial strategy) must be repaired, and with that register
 	if g.want != nil {
-		at := g.findWanted()
+		at := g.findWanted(*g.want)
 		if at >= 0 {
 			for k, e := range o.Entries {
 				if e.Exp == at && e.Calc == pe && (e.Status != 1 || o.Reg == nil || *o.Reg != *g.want) {
 					fail(fmt.Sprintf("entry %d: PCR0_DATA recorded with ACM_POLICY_STATUS %#x (inside the linear window, or within the distance of the enabled combinatorial strategy) is not repaired with that value", k, *g.want))
+					return
+				}
+			}
+		}
+	}
+	// 3b. ... and one the settings exclude (a decrement at or beyond MaxACMPolicyLinearDistance that is not within
+	// MaxACMPolicyCombinatorialDistance bit flips either, or the strategy is not enabled) must not: the limits bound
+	// the search, a disabled strategy is not run
+	if g.wantNot != nil {
+		at := g.findWanted(*g.wantNot)
+		if at >= 0 {
+			for k, e := range o.Entries {
+				if e.Exp == at && e.Calc == pe && e.Status == 1 {
+					fail(fmt.Sprintf("entry %d: PCR0_DATA recorded with ACM_POLICY_STATUS %#x is repaired although the settings exclude that value (simulated %#x; MaxACMPolicyLinearDistance %d, combinatorial strategy enabled: %v, MaxACMPolicyCombinatorialDistance %d)", k, *g.wantNot,
+						le64first(pAll[0].raw), g.st.MaxACMPolicyLinearDistance, g.st.EnableACMPolicyCombinatorialStrategy, g.st.MaxACMPolicyCombinatorialDistance))
 					return
 				}
 			}
@@ -1665,13 +1701,10 @@ func noteFindable(alg tpm2.Algorithm, pre []byte) {
 }
 
 // the recorded entry re-digested with the wanted register
-func (g *genCtx) findWanted() int {
-	if g.want == nil {
-		return -1
-	}
+func (g *genCtx) findWanted(v uint64) int {
 	var d []byte
 	for _, h := range g.hp {
-		if h.v == *g.want {
+		if h.v == v {
 			d = h.dig
 		}
 	}
@@ -1867,9 +1900,7 @@ func main() {
 						at := g.findPCR0Entry()
 						v := reg - uint64(d)
 						g.evs[at].Digest.Digest = g.pcr0Digest(v)
-						if d < limit && d > 0 {
-							g.want = &v
-						}
+						g.expect(reg, v)
 						g.ops = []string{fmt.Sprintf("PCR0_DATA entry re-digested with ACM_POLICY_STATUS - %d (limit %d, GOMAXPROCS %d)", d, limit, P)}
 						doCase(c, "pcr0-decrement", g, false)
 					}
@@ -1920,8 +1951,8 @@ func main() {
 						var v uint64
 						var outside bool
 						g.evs[at].Digest.Digest, v, outside = g.pcr0FlipDigest(fl)
-						if !outside && reachable(g.st, reg, v) {
-							g.want = &v
+						if !outside {
+							g.expect(reg, v)
 						}
 						g.ops = []string{fmt.Sprintf("PCR0_DATA entry re-digested with bits %v of PCR0_DATA flipped (%s; bits 0..63 are ACM_POLICY_STATUS, which reads %#x then)", fl, pat.name, v)}
 						doCase(c, "pcr0-bitflip", g, false)
@@ -2152,9 +2183,9 @@ func main() {
 		return r
 	}()
 	c.Finish("simulated boots on testdata/firmware/fake_intel_firmware.fd (Intel test flow with startup locality + PCR0_DATA + 3 measurements; small register, no locality entry, POST_CODE measurements, PCR1 measurement, two measurements in one step; no TXT registers with a log-only entry; registers without PCR0_DATA; a flow alignLogAndMeasurements rejects; measurements of two and three references, image ranges and hard-coded values mixed, behind EV_POST_CODE / firmware-blob entries); " +
-		"recorded logs = both banks of the simulated log changed by 0..4 edit operations on the PCR0 entries of the chosen bank (insert new / copied entry, delete, swap, move, retype, re-digest with random / zero / image-piece digests, event data with zero, one, two, three (length,offset) pairs in range, swapped, ending at / reaching past the image end, invalid, Fv(guid) descriptions, lists of 0..6 pairs (empty, real, stored offset first, at / past the image end) in any order, entry leaves the bank, truncated digest, PCR0_DATA re-digested with ACM_POLICY_STATUS decremented inside / at / above the window or with 1-2 flipped bits); " +
+		"recorded logs = both banks of the simulated log changed by 0..4 edit operations on the PCR0 entries of the chosen bank (insert new / copied entry, delete, swap, move, retype, re-digest with random / zero / image-piece digests, event data with zero, one, two, three (length,offset) pairs in range, swapped, ending at / reaching past the image end, invalid, Fv(guid) descriptions, lists of 0..6 pairs (empty, real, stored offset first, at / past the image end) in any order, entry leaves the bank, truncated digest, PCR0_DATA re-digested with ACM_POLICY_STATUS decremented inside / at / above the window, with 1-2 flipped register bits, or with 1-2 bits flipped behind the register / on both sides of its end); " +
 		"pair lists: every list of empty / real pairs up to three pairs (thorough: four) as the event data of every simulated entry, the entry only re-digested (retyped to a parsed type with DisabledEventsMaxDistance 0 where needed) so that it stays paired with its measurement of one, two or three references, plus random longer lists after descriptions; " +
-		"sweeps: every decrement 0..max(limit,GOMAXPROCS)+2 for limits 0..16 and GOMAXPROCS 1..16, bit flips with the combinatorial strategy on/off; settings drawn per case (linear limit incl. negative, combinatorial 0..2, DisabledEventsMaxDistance 0..4, MaxDigestRangeGuesses 1..300; 20000..1520000 on the digest-search logs, whose unexplained digests (copied EV_SEPARATOR entry, runs of 0x00 / 0xff bytes) are found at many places of the image by several workers at once - the input class of the repaired defect C13-unhash-concurrent-found-digests, whose witness also runs in a child process as a regression check); SHA1 and SHA256 (+ SHA384, unknown and null algorithm, nil and empty log); " +
+		"sweeps: every decrement 0..max(limit,GOMAXPROCS)+2 for limits 0..16 and GOMAXPROCS 1..16, bit flips anywhere in PCR0_DATA (register bit 0 / 63 / one / two / three bits; the first bit, the next byte, the last bit, one or two bits behind the register; a register bit together with a bit behind it) under combinatorial strategy off / on with distance 0, 1, 2 and linear limits 0, 2, 8, 128; the oracle re-hashes PCR0_DATA with the returned register for every repaired entry and demands the repair (with that value) whenever the settings promise it (decrement inside the window, or strategy enabled and at most distance register bits differ); settings drawn per case (linear limit incl. negative, combinatorial strategy on in half of the cases with distance 0..2, DisabledEventsMaxDistance 0..4, MaxDigestRangeGuesses 1..300; 20000..1520000 on the digest-search logs, whose unexplained digests (copied EV_SEPARATOR entry, runs of 0x00 / 0xff bytes) are found at many places of the image by several workers at once - the input class of the repaired defect C13-unhash-concurrent-found-digests, whose witness also runs in a child process as a regression check); SHA1 and SHA256 (+ SHA384, unknown and null algorithm, nil and empty log); " +
 		"hook cases: eventAndMeasurementsDistance on balanced/unbalanced bitmaps and short digests, bruteForceAlignedEventLogs on the generated logs; non-trivial = at least one edit operation; distinct = distinct Gallina literal")
 }
 
